@@ -176,6 +176,29 @@ def do_case(case):
     k0 = list(par.bounds)[0]
     r['interleaved_boot'] = {'rows_added': int(len(par.bootstraps)) - rows0, 'first_column': [float(x) for x in list(par.bootstraps[k0])[rows0:]],
                              'derived_loss': float(der.loss_inferred), 'parent_loss_after': float(par.loss_inferred)}
+    # the PLURAL entry points add_runs / add_bootstraps (documented to take any iterable): the same objects merged one by one, handed over as
+    # a list and handed over as a one-shot iterator (generator / map) give the same result - the minimum over all runs, one row each
+    import copy
+    srcs = [other, der, pf2]
+    pa, pb, pg_ = copy.deepcopy(par), copy.deepcopy(par), copy.deepcopy(par)
+    for x_ in srcs:
+        pa.add_run(x_)
+    pb.add_runs(list(srcs))
+    pg_.add_runs(x_ for x_ in srcs)
+    items = [other, {k: 4.0 for k in par.bounds}, der]
+    rows = []
+    for obj, how in ((pa, 'singular'), (pb, 'list'), (pg_, 'iterator')):
+        n0_ = int(len(obj.bootstraps))
+        if how == 'singular':
+            for d_ in items:
+                obj.add_bootstrap(d_)
+        elif how == 'list':
+            obj.add_bootstraps(list(items))
+        else:
+            obj.add_bootstraps(map(lambda d_: d_, items))
+        rows.append({'how': how, 'rows_added': int(len(obj.bootstraps)) - n0_, 'first_column': [float(x) for x in list(obj.bootstraps[k0])[n0_:]]})
+    r['plural'] = {'singular': summary(pa), 'list': summary(pb), 'iterator': summary(pg_), 'rows': rows,
+                   'min_loss': float(min([par.loss_inferred] + [x_.loss_inferred for x_ in srcs]))}
     return r
 
 
